@@ -141,7 +141,11 @@ func build(dir string) (bin string, info *instr.Info) {
 		die2("instrumenter failed: %v", err)
 	}
 	bin = filepath.Join(dir, "scen.test")
-	args := []string{"test", "-c", "-vet=off", "-tags", "verif", "-overlay", info.OverlayJSON, "-o", bin, "./scen"}
+	tags := "verif,all"
+	if t := os.Getenv("VERIF_TAGS"); t != "" {
+		tags = "verif," + t // development: build only some property files
+	}
+	args := []string{"test", "-c", "-vet=off", "-tags", tags, "-overlay", info.OverlayJSON, "-o", bin, "./scen"}
 	if os.Getenv("VERIF_RACE") != "" {
 		args = append(args[:2], append([]string{"-race"}, args[2:]...)...)
 	}
